@@ -1012,8 +1012,12 @@ func genAddExternalIncentive(g *G) *Op {
 	denoms := []string{"uusdt", ptypes.ATOM}
 	d := denoms[g.Pick("incdenom", len(denoms))]
 	amt := sdkmath.NewInt(int64(g.Int("incamt", 1, 5_000_000)))
+	poolID := p.PoolId
+	if g.Int("incvault", 0, 3) == 0 {
+		poolID = uint64(sstypes.PoolId) // the stablestake vault is a reward pool too – possibly with nobody in it yet
+	}
 	return &Op{Signer: u, Kind: "masterchef.add_external_incentive", Msg: &mctypes.MsgAddExternalIncentive{Sender: u.Addr.String(), RewardDenom: d,
-		PoolId: p.PoolId, FromBlock: from, ToBlock: to, AmountPerBlock: amt}}
+		PoolId: poolID, FromBlock: from, ToBlock: to, AmountPerBlock: amt}}
 }
 
 func (g *G) claimedOf(addr, denom string) sdkmath.Int {
